@@ -120,14 +120,15 @@ class ScalarFormatter(object):
         :param float x: The value to format.
         :rtype: str
         """
-        # needed e.g. when rounding values like 9.999999 -> 10.0 (shift in decimal place)
-        _rounded_x = abs(np.around(x, self._sig))
-        # fallback to rounding to 10^(-1) if value is zero
-        _log_abs_x = -1
-        if _rounded_x:
-            _log_abs_x = np.log10(np.abs(_rounded_x))
+        # decimal exponent of x, fallback to rounding to 10^(-1) if value is zero
+        _exponent = int(("%.17e" % abs(x)).split("e")[1]) if x else -1
         # significant digits of x down to the decimal place self._sig: places before the point + places after it
-        _val_sig = int(self._sig - int(-np.floor(_log_abs_x)) + 1)
+        _val_sig = self._sig + _exponent + 1
+        # needed e.g. when rounding values like 9.999999 -> 10.0 (shift in decimal place); judged with the same correctly
+        # rounded conversion that prints the value: np.around and np.log10 are a few ulps off for large exponents
+        # (around(9.95e100, -99) -> 9.9e100 but '%.2g' -> 1.0e+101, floor(log10(1e100)) -> 99)
+        if _val_sig > 0 and int(("%.{}e".format(_val_sig - 1) % abs(x)).split("e")[1]) > _exponent:
+            _val_sig += 1
 
         _val_sig = max(_val_sig, 0)
 
